@@ -177,9 +177,18 @@ func (s *BlockchainRpcTxWatcher) StartBlockWatcher() error {
 
 // HandleCsvTx looks for transactions that have enough confirmations to be spend using the csv path
 func (s *BlockchainRpcTxWatcher) HandleCsvTx(blockheight uint64) error {
-	var toRemove []string
+	// The callback runs into the swap state machine, which may in turn register
+	// a transaction with this watcher. Therefore the watcher lock must not be
+	// held while the callback runs.
 	s.Lock()
+	callback := s.csvPassedCallback
+	watched := make(map[string]*SwapTxInfo, len(s.csvtxWatchList))
 	for k, v := range s.csvtxWatchList {
+		watched[k] = v
+	}
+	s.Unlock()
+
+	for k, v := range watched {
 		res, err := s.blockchain.GetTxOut(v.TxId, v.TxVout)
 		if err != nil {
 			log.Infof("watchlist fetchtx err: %v", err)
@@ -191,19 +200,33 @@ func (s *BlockchainRpcTxWatcher) HandleCsvTx(blockheight uint64) error {
 		if v.Csv > res.Confirmations {
 			continue
 		}
-		if s.csvPassedCallback == nil {
+		if callback == nil {
 			continue
 		}
-		err = s.csvPassedCallback(k)
+		// Take the entry off the list before reporting it, so that it is
+		// reported once even if two sweeps run at the same time.
+		s.Lock()
+		current, ok := s.csvtxWatchList[k]
+		if !ok || current != v {
+			s.Unlock()
+			continue
+		}
+		delete(s.csvtxWatchList, k)
+		s.Unlock()
+
+		err = callback(k)
 		if err != nil {
 			log.Infof("csv passed callback err: %v. swap id: %s, tx id: %s, starting block height: %d",
 				err, k, v.TxId, v.StartingBlockHeight)
+			// Try again with the next block.
+			s.Lock()
+			if _, exists := s.csvtxWatchList[k]; !exists {
+				s.csvtxWatchList[k] = v
+			}
+			s.Unlock()
 			continue
 		}
-		toRemove = append(toRemove, k)
 	}
-	s.Unlock()
-	s.TxClaimed(toRemove)
 	return nil
 }
 
@@ -243,22 +266,25 @@ func (l *BlockchainRpcTxWatcher) AddWaitForCsvTx(swapId, txId string, vout uint3
 	if err != nil {
 		log.Infof("[TxWatcher] checkTxAboveCsvHeight returned: %s", err.Error())
 	}
-	if above {
-		err = l.csvPassedCallback(swapId)
-		if err == nil {
-			log.Infof("Swap %s already past CSV limit", swapId)
-			return
-		}
-		log.Infof("csv passed callback error: %v", err)
-	}
 
 	l.Lock()
-	defer l.Unlock()
 	l.csvtxWatchList[swapId] = &SwapTxInfo{
 		TxId:                txId,
 		TxVout:              vout,
 		Csv:                 csv,
 		StartingBlockHeight: startingBlockheight,
+	}
+	l.Unlock()
+
+	if above {
+		// This function is called from an action of the swap state machine,
+		// which holds the lock of the swap. Reporting the csv from here would
+		// send an event to the same state machine and block forever, so the
+		// report is made from its own goroutine.
+		log.Infof("Swap %s already past CSV limit", swapId)
+		go func() {
+			_ = l.HandleCsvTx(0)
+		}()
 	}
 }
 
